@@ -1,5 +1,6 @@
 """FFT Functions with proper dispatching for Dask Arrays."""
 
+import operator
 import numpy as np
 import scipy.fft
 from functools import singledispatch
@@ -76,10 +77,27 @@ def __getattr__(name):
         kwargs = {
             k: v for k, v in kwargs.items() if k not in ("overwrite_x", "workers", "plan")
         }
+        if not name.endswith(("2", "n")):
+            # (n, axis, norm) may be positional; the axis may be any integer type.
+            given = dict(zip(("n", "axis", "norm"), args[:3]), **kwargs)
+            if given.get("axis") is not None:
+                given["axis"] = operator.index(given["axis"])
+            args, kwargs = args[3:], given
         # Tell dask the output dtype (it would otherwise transform an array of
-        # 8 ** ndim ones to find out): it depends on the input dtype only.
-        probe = np.ones((2,) * max(x.ndim, 2 if name.endswith("2") else 1), dtype=x.dtype)
-        wrapped_func = da.fft.fft_wrap(_fft_func, dtype=_fft_func(probe).dtype)
+        # 8 ** ndim ones to find out): transform a probe that has two elements
+        # along the transformed axes and one along the others.
+        if name.endswith(("2", "n")):
+            probe_axes = tuple(kwargs["axes"]) if kwargs.get("axes") is not None else (-2, -1)
+            probe_kwargs = {"axes": probe_axes}
+        else:
+            axis = kwargs.get("axis")
+            probe_axes = (-1 if axis is None else axis,)
+            probe_kwargs = {"axis": probe_axes[0]}
+        shape = [1] * x.ndim
+        for a in probe_axes:
+            shape[a] = 2
+        out_dtype = _fft_func(np.ones(shape, dtype=x.dtype), **probe_kwargs).dtype
+        wrapped_func = da.fft.fft_wrap(_fft_func, dtype=out_dtype)
         return wrapped_func(x, *args, **kwargs)
 
     func.__qualname__ = _fft_func.__qualname__
